@@ -478,9 +478,8 @@ func (fd *Client) Query(input *dynamodb.QueryInput) (*dynamodb.QueryOutput, erro
 		return nil, err
 	}
 
-	if input.ScanIndexForward == nil {
-		input.ScanIndexForward = aws.Bool(true)
-	}
+	// forward is the default; the input belongs to the caller and is not written to
+	scanIndexForward := input.ScanIndexForward == nil || aws.BoolValue(input.ScanIndexForward)
 
 	items, lastKey := table.SearchData(core.QueryInput{
 		Index:                     indexName,
@@ -490,7 +489,7 @@ func (fd *Client) Query(input *dynamodb.QueryInput) (*dynamodb.QueryOutput, erro
 		ExclusiveStartKey:         mapAttributeValueToTypes(input.ExclusiveStartKey),
 		KeyConditionExpression:    aws.StringValue(input.KeyConditionExpression),
 		FilterExpression:          aws.StringValue(input.FilterExpression),
-		ScanIndexForward:          aws.BoolValue(input.ScanIndexForward),
+		ScanIndexForward:          scanIndexForward,
 	})
 
 	count := int64(len(items))
